@@ -1192,6 +1192,11 @@ class Interp:
                 vals.append(ix)
             else:
                 vals.append(self.expr(ix, env, mod))
+        for k_, x_ in enumerate(vals):
+            if isinstance(x_, _SelIdx):
+                if v.mask is not None and v.mask == x_.mask:
+                    return Unk('gather within a compressed selection', e)
+                raise LabelClash('positions counted within a compressed selection of axis %r (%s of the selected elements) index the full axis in %s' % (x_.label, x_.what, up(e)))
         # paired fancy gather  A[arange(n), best, ...]
         arrs = [(k, x) for k, x in enumerate(vals) if isinstance(x, Arr) and x.ndim == 1 and not _is_boolean(x.poly)]
         if len(arrs) == 2:
@@ -1375,7 +1380,7 @@ class Interp:
             if last in ('sum', 'any', 'all', 'max', 'min', 'nanmax', 'nanmin', 'amax', 'amin'):
                 kind = {'amax': 'max', 'amin': 'min'}.get(last, last)
                 return self._reduce(args[0], kw.get('axis', args[1] if len(args) > 1 else None), kind, e)
-            if last in ('log10', 'log', 'abs', 'absolute', 'sqrt', 'isinf', 'isnan', 'ceil', 'floor', 'exp'):
+            if last in ('log10', 'log', 'abs', 'absolute', 'sqrt', 'isinf', 'isnan', 'isfinite', 'ceil', 'floor', 'exp'):
                 x = self._as_arr(args[0])
                 if isinstance(x, Unk):
                     return x
@@ -1389,6 +1394,8 @@ class Interp:
                     return x.with_(poly=x.poly.pow(Fraction(1, 2)), unit=_upow(x.unit, Fraction(1, 2)), dt='f')
                 if last in ('isinf', 'isnan'):
                     return x.with_(poly=alg.mk_ind(last, x.poly), unit=None, dt=None)
+                if last == 'isfinite':
+                    return x.with_(poly=alg.b_not(alg.mk_ind('isinf', x.poly)) * alg.b_not(alg.mk_ind('isnan', x.poly)), unit=None, dt=None)
                 return x.with_(poly=alg.mk_fn(last, P(x.poly)), dt='f' if last == 'exp' else x.dt)
             if last in ('isin', 'in1d') and len(args) == 2:
                 a, b = self._as_arr(args[0]), self._as_arr(args[1])
@@ -1444,9 +1451,16 @@ class Interp:
                 return Arr([d for k, d in enumerate(x.dims) if k != ax], alg.mk_fn(last, B(x.dims[ax], x.poly)), unit=num(1))
             if last == 'argsort':
                 x = self._as_arr(args[0])
+                if isinstance(x, Arr) and x.ndim == 1 and x.mask is not None:
+                    return _SelIdx(x.mask, x.dims[0], 'argsort')          # positions counted within the compressed selection
                 if isinstance(x, Arr) and x.ndim == 1:
                     return Arr(x.dims, alg.array_fn('argsort', x.dims[0], x.poly), unit=num(1))
                 return Unk('argsort of %r' % (x,), e)
+            if last == 'flatnonzero' and len(args) == 1:
+                m_ = self._as_arr(args[0])
+                if isinstance(m_, Arr) and m_.ndim == 1 and _is_boolean(m_.poly):
+                    return _WhereIdx(m_)
+                return Unk('np.flatnonzero of %r' % (m_,), e)
             if last == 'flip' and args:
                 x = self._as_arr(args[0])
                 ax_ = kw.get('axis', args[1] if len(args) > 1 else None)
@@ -1530,6 +1544,14 @@ class Interp:
                 extra = [C('%s=%s' % (k, v)) for k, v in sorted(kw.items())]
                 return Arr(('d',), alg.mk_fn('logspace', L('d'), P(a[0].poly), P(a[1].poly), P(a[2].poly), *extra), unit=num(1), fresh=True)
             if last == 'hstack' or last == 'concatenate':
+                parts = args[0] if args and isinstance(args[0], (list, tuple)) else []
+                sel = [x for x in parts if isinstance(x, _SelIdx)]
+                full = [x for x in parts if isinstance(x, _WhereIdx) or (isinstance(x, Arr) and x.ndim == 1)]
+                if sel and full:
+                    lab = sel[0].label
+                    self.findings.append(Finding('label-clash', 'positions counted within a compressed selection of axis %r (%s of the selected elements) are concatenated with '
+                                                 'positions on the full axis: the two index spaces differ whenever an unselected element precedes a selected one' % (lab, sel[0].what), e, mod.path))
+                    return Unk('index spaces mixed in %s' % last, e, definite=True)
                 return Unk('hstack', e)
             if last == 'isscalar':
                 x = args[0]
@@ -1835,6 +1857,12 @@ class _WhereIdx:
 
     def sel_label(self):
         return 'sel:' + alg.show(self.mask.poly, 400)
+
+
+class _SelIdx:
+    """integer positions counted within the compressed selection ``mask`` of axis ``label`` (e.g. argsort(x[mask]))"""
+    def __init__(self, mask, label, what):
+        self.mask, self.label, self.what = mask, label, what
 
 
 class _Repeat:
